@@ -123,6 +123,8 @@ def main():
                 status = "CAUGHT"
             elif code == 1:
                 status = "OTHER-VIOLATION-ONLY"
+            elif m.get("expect_status") == "not-decided":
+                status = "NOT-DECIDED"      # a seeded change in a clause DESIGN.md declares undecided (values / set algebra): recorded, not a failure
             else:
                 status = "MISSED"
             res = {"name": m["name"], "prop": m["prop"], "status": status, "expect": m["expect"],
@@ -138,7 +140,7 @@ def main():
     sh("git -C %s checkout -- ." % WT)
     if not a.keep:
         sh("git -C /repo worktree remove --force %s" % WT)
-    bad = [r for r in results if r["status"] != "CAUGHT"]
+    bad = [r for r in results if r["status"] not in ("CAUGHT", "NOT-DECIDED")]
     print("[selftest] %d mutants, %d caught, %d not" % (len(results), len(results) - len(bad), len(bad)))
     return 1 if bad else 0
 
